@@ -232,6 +232,10 @@ class Call:
         if levels is None:
             categories = sorted(list(set(data)))
         else:
+            # Checked here, when the encoding is learnt, and not in CategoricalBox: the box is
+            # built again for new data, which does not need to contain every level.
+            if set(levels) != set(data):
+                raise ValueError("The levels beign assigned and the levels in the data differ")
             categories = levels
 
         dtype = pd.api.types.CategoricalDtype(categories=categories, ordered=True)
